@@ -73,6 +73,7 @@ def find_core_tokens(string, root):
             elif c == '!':
                 in_image = True
             elif c == ']':
+                in_image = False
                 i = find_link_image(string, i, delimiters, matches, root)
                 code_match = code_pattern.search(string, i)
             elif in_image:
